@@ -39,7 +39,7 @@ func FQDN(domain string) string {
 // domains are simply converted to local-case using strings.ToLower, but the
 // error is also returned.
 func ForLookup(domain string) (string, error) {
-	uDomain, err := idna.ToUnicode(domain)
+	uDomain, err := idna.ToUnicode(LowerASCII(domain))
 	if err != nil {
 		return strings.ToLower(domain), err
 	}
@@ -50,6 +50,32 @@ func ForLookup(domain string) (string, error) {
 	uDomain = strings.ToLower(uDomain)
 	uDomain = strings.TrimSuffix(uDomain, ".")
 	return uDomain, nil
+}
+
+// LowerASCII converts ASCII letters to lower case and leaves everything
+// else untouched.
+//
+// The ACE prefix and the A-label itself are case-insensitive (RFC 5890
+// Section 2.3.2.1, RFC 3492 Section 5) but idna.ToUnicode recognizes only
+// the lower-case "xn--" prefix.
+func LowerASCII(s string) string {
+	hasUpper := false
+	for i := 0; i < len(s); i++ {
+		if s[i] >= 'A' && s[i] <= 'Z' {
+			hasUpper = true
+			break
+		}
+	}
+	if !hasUpper {
+		return s
+	}
+	b := []byte(s)
+	for i, c := range b {
+		if c >= 'A' && c <= 'Z' {
+			b[i] = c + ('a' - 'A')
+		}
+	}
+	return string(b)
 }
 
 // Equal reports whether domain1 and domain2 are equivalent as defined by
